@@ -19,7 +19,9 @@ use super::{
 use crate::array::DataChunk;
 use crate::catalog::find_sort_key_id;
 use crate::storage::secondary::statistics::create_statistics_global_aggregator;
-use crate::storage::{ScanOptions, StorageColumnRef, StorageResult, Transaction};
+use crate::storage::{
+    ScanOptions, StorageColumnRef, StorageResult, TracedStorageError, Transaction,
+};
 use crate::types::DataValue;
 
 /// A transaction running on `SecondaryStorage`.
@@ -375,6 +377,17 @@ impl Transaction for SecondaryTransaction {
             self.delete_lock.is_some(),
             "delete lock is not held for this txn"
         );
+        // The row handler may come from a scan that pinned an older snapshot (e.g. the child scan
+        // of a DELETE statement, which starts before this transaction takes the table lock). If a
+        // compaction replaced that RowSet in between, a delete vector written against it would
+        // never be applied: report it instead of acknowledging a delete that removes nothing.
+        let known = self
+            .snapshot
+            .get_rowsets_of(self.table.table_id())
+            .is_some_and(|rowsets| rowsets.contains(&id.rowset_id()));
+        if !known {
+            return Err(TracedStorageError::not_found("rowset", id.rowset_id()));
+        }
         self.delete_buffer.push(*id);
         Ok(())
     }
